@@ -293,7 +293,7 @@ class PragmaAttacher(Visitor):
                 updated += [i]
         if self.attach_pragma_post and pragmas:
             # Take care of leftover pragmas
-            if updated and isinstance(updated[-1], self.node_type):
+            if updated and isinstance(updated[-1], self.node_type) and hasattr(updated[-1], 'pragma_post'):
                 updated[-1]._update(
                     pragma_post=as_tuple(getattr(updated[-1], 'pragma_post', None)) + as_tuple(pragmas)
                 )
